@@ -211,3 +211,62 @@ Proof.
   split; [exact H3|]. split; [rewrite (read_bytes_written f _ t2 H3); exact H4|].
   intros Hf. rewrite (H5 Hf). reflexivity.
 Qed.
+
+(* ---------------------------------------------------------------- reader side for SJSON bytes *)
+Lemma dec_seq_shape t s : dec_seq t = Ok s -> exists d i nt f, s = bioseq_typed d i nt f.
+Proof.
+  unfold dec_seq. destruct t as [| |l|l]; try discriminate.
+  destruct (lookup CLS l) as [[| c | |]|]; try discriminate.
+  destruct (lookup (bs "data"%bs) l) as [[| d | |]|]; try discriminate.
+  destruct (lookup (bs "meta"%bs) l) as [m|]; try discriminate.
+  destruct (lookup (bs "type"%bs) l) as [[| ty | |]|]; try discriminate.
+  destruct (str_eqb c (bs "BioSeq"%bs) && known_keys [bs "data"%bs; bs "meta"%bs; bs "type"%bs; CLS] l); try discriminate.
+  destruct (dec_meta m) as [[i f]|e]; cbn [bind]; try discriminate.
+  destruct (str_eqb ty (bs "nt"%bs)); [intros H; injection H as <-; eauto|].
+  destruct (str_eqb ty (bs "aa"%bs)); [intros H; injection H as <-; eauto|discriminate].
+Qed.
+Definition stable_sjson (s : bseq) : Prop := upper (b_data s) = b_data s /\ b_header s = None.
+Lemma mapres_dec_shape l : forall b, mapres dec_seq l = Ok b -> Forall stable_sjson b.
+Proof.
+  induction l as [|t l IH]; intros b H.
+  - cbn in H. injection H as <-. constructor.
+  - cbn [mapres] in H. destruct (dec_seq t) as [s|e] eqn:E; cbn [bind] in H; [|discriminate].
+    destruct (mapres dec_seq l) as [ys|e]; cbn [bind] in H; [|discriminate]. injection H as <-.
+    constructor; [|apply IH; reflexivity].
+    destruct (dec_seq_shape t s E) as (d & i & nt & f & ->). split; [apply upper_idem|reflexivity].
+Qed.
+Lemma dec_basket_shape t b : dec_basket t = Ok b -> Forall stable_sjson b.
+Proof.
+  unfold dec_basket. destruct t as [| |l|l]; try discriminate.
+  destruct (lookup CLS l) as [[| c | |]|]; try discriminate.
+  destruct (lookup (bs "data"%bs) l) as [[| | seqs |]|]; try discriminate.
+  destruct (_ && _); try discriminate. apply mapres_dec_shape.
+Qed.
+Lemma read_bytes_sjson_shape t o : read_bytes Sjson t = Ok o ->
+  Forall (fun s => stable_sjson s /\ b_fmt s = Some (fmt_name Sjson)) o.
+Proof.
+  unfold read_bytes, read_sjson_text. destruct (jload t) as [tr|]; cbn [bind]; [|discriminate].
+  destruct (dec_basket tr) as [b|e] eqn:E; cbn [bind]; [|discriminate]. intros H. injection H as <-.
+  pose proof (dec_basket_shape tr b E) as F. clear E. induction F as [|s b Hs Hb IH]; cbn [map]; [constructor|].
+  constructor; [|exact IH]. destruct Hs as [H1 H2]. split; [split; [exact H1|exact H2]|reflexivity].
+Qed.
+(* reader side for SJSON: ANY characters that read() decodes to a basket give objects that are written and read back as
+   themselves, on bytes (no domain condition at all) *)
+Theorem sjson_reader_fixpoint t o : read_bytes Sjson t = Ok o ->
+  exists c, write_w Sjson o = Ok c /\ read_bytes Sjson (content_text c) = Ok o /\ read_auto c = Ok o.
+Proof.
+  intros H. pose proof (read_bytes_sjson_shape t o H) as F.
+  assert (U : forallb data_upper o = true).
+  { rewrite forallb_forall. rewrite Forall_forall in F. intros s Hs. destruct (F s Hs) as [[H1 _] _].
+    unfold data_upper. rewrite H1. apply str_eqb_eq. reflexivity. }
+  assert (N : map (norm_plain Sjson) o = o).
+  { clear H U. induction F as [|s o [[H1 H2] H3] Fo IH]; [reflexivity|]. cbn [map]. rewrite IH. f_equal.
+    destruct s as [d i nt h f]. cbn in *. subst. reflexivity. }
+  destruct (sjson_seq_roundtrip o U) as (c & W & R & _). rewrite N in R.
+  exists c. split; [exact W|]. split; [rewrite (read_bytes_written Sjson o c W); exact R|].
+  destruct o as [|s o'].
+  - (* the empty basket is detected too: the SJSON head does not depend on the sequences *)
+    rewrite write_w_sjson in W. injection W as <-. unfold read_auto. cbn [content_text map concat]. rewrite app_nil_r.
+    rewrite sjson_detected. exact R.
+  - rewrite (auto_read_written Sjson (s :: o') c ltac:(discriminate) W). exact R.
+Qed.
